@@ -2,6 +2,7 @@ from collections import deque
 from collections.abc import Iterator
 from typing import Generic, TypeVar
 
+from guppylang_internals import _verif
 from guppylang_internals.cfg.analysis import (
     AssignmentAnalysis,
     DefAssignmentDomain,
@@ -61,6 +62,8 @@ class BaseCFG(Generic[T]):
     def update_reachable(self) -> None:
         """Sets the reachability flags on the BBs in this CFG."""
         queue = {self.entry_bb}
+        if _verif.ON:
+            queue = _verif.sched_set(queue, "update_reachable")
         while queue:
             bb = queue.pop()
             if not bb.reachable:
